@@ -60,11 +60,17 @@ pub fn run_case(mk: &Mk, c: &Case) -> String {
         e.rule = make_mx(&set.join(",")).unwrap();
         exps.push(e);
     }
+    let lines: Vec<Vec<u8>> = (0..c.nl).map(|j| line_bytes(j, j + 1 == c.nl, c.nlflag)).collect();
+    run_with(&exps, &lines, c)
+}
+
+pub fn run_with(exps_in: &[Expectation], lines: &[Vec<u8>], c: &Case) -> String {
+    let exps: Vec<Expectation> = exps_in.to_vec();
     let mut out: Vec<u8> = vec![];
-    for j in 0..c.nl { out.extend(line_bytes(j, j + 1 == c.nl, c.nlflag)); }
+    for l in lines { out.extend(l); }
     let enc_lines = |ls: &Vec<(usize, Vec<u8>)>| -> String {
         ls.iter().map(|(j, b)| {
-            let ok = *j < c.nl && *b == line_bytes(*j, *j + 1 == c.nl, c.nlflag);
+            let ok = *j < c.nl && *b == lines[*j];
             if ok { j.to_string() } else { (j + 1000).to_string() }
         }).collect::<Vec<_>>().join(",")
     };
@@ -178,6 +184,48 @@ pub fn main(args: &[String], w: &mut dyn Write) {
                 let c = random_case(&mut r, a, b);
                 writeln!(w, "{}", run_case(&mk, &c)).unwrap();
             }
+        }
+        "text" => {
+            // real rules on real text with repeated lines: the match matrix is MEASURED (every expectation against every line,
+            // one at a time), the verdict of DiffTool on the whole output must be the model's for that matrix
+            let (count, seed): (u64, u64) = (args[1].parse().unwrap(), args[2].parse().unwrap());
+            let (shard, nsh): (u64, u64) = (args[3].parse().unwrap(), args[4].parse().unwrap());
+            let mk = ExpectationMaker::new(RuleRegistry::default());
+            let pool = ["a", "b", "ab", "a (+)", "b (*)", "- (*)", "a (?)", "? (glob)", "* (glob+)", "a* (glob*)", "[ab]+ (regex+)", "a|b (regex)", "a (no-eol)", "- (no-eol)", "b (equal?)", "- (+)", "ab (*)", "?? (glob?)"];
+            let parsed: Vec<Expectation> = pool.iter().map(|p| mk.parse(p).unwrap()).collect();
+            let texts: [&[u8]; 5] = [b"a", b"b", b"ab", b"-", b"a"];
+            let mut r = Rng::new(seed.wrapping_add(shard * 104729));
+            for _ in 0..(count / nsh) {
+                let ne = r.range(0, 5); let nl = r.range(0, 7);
+                let exps: Vec<Expectation> = (0..ne).map(|_| r.pick(&parsed).clone()).collect();
+                let nlflag = r.chance(1, 2);
+                let mut lines: Vec<Vec<u8>> = vec![];
+                for j in 0..nl {
+                    let mut l = if j > 0 && r.chance(1, 2) { let mut p = lines[j - 1].clone(); if p.last() == Some(&b'\n') { p.pop(); } p } else { r.pick(&texts).to_vec() };
+                    if j + 1 < nl || nlflag { l.push(b'\n'); }
+                    lines.push(l);
+                }
+                let m: Vec<bool> = exps.iter().flat_map(|e| lines.iter().map(|l| e.matches(l)).collect::<Vec<_>>()).collect();
+                let q: Vec<u8> = exps.iter().map(|e| match (e.optional, e.multiline) { (false, false) => b'.', (true, false) => b'?', (true, true) => b'*', (false, true) => b'+' }).collect();
+                let c = Case { ne, nl, q, m, nlflag };
+                let picked: Vec<String> = exps.iter().map(|e| crate::p_escape::hex(e.original_string().as_bytes())).collect();
+                writeln!(w, "{}|{};{}", run_with(&exps, &lines, &c), if picked.is_empty() { "-".to_string() } else { picked.join(",") }, crate::p_escape::hex(&lines.concat())).unwrap();
+            }
+        }
+        "textone" => {
+            // replay of a text case: <hex expectation lines, comma separated | ->;<hex output>
+            let mk = ExpectationMaker::new(RuleRegistry::default());
+            let (es, out) = args[1].split_once(';').unwrap();
+            let unhex = |h: &str| -> Vec<u8> { if h == "-" { vec![] } else { (0..h.len() / 2).map(|i| u8::from_str_radix(&h[2 * i..2 * i + 2], 16).unwrap()).collect() } };
+            let exps: Vec<Expectation> = if es == "-" { vec![] } else { es.split(',').map(|h| mk.parse(&String::from_utf8(unhex(h)).unwrap()).unwrap()).collect() };
+            let out = unhex(out);
+            let mut lines: Vec<Vec<u8>> = vec![]; let mut cur = vec![];
+            for b in out { cur.push(b); if b == b'\n' { lines.push(std::mem::take(&mut cur)); } }
+            let nlflag = cur.is_empty(); if !cur.is_empty() { lines.push(cur); }
+            let m: Vec<bool> = exps.iter().flat_map(|e| lines.iter().map(|l| e.matches(l)).collect::<Vec<_>>()).collect();
+            let q: Vec<u8> = exps.iter().map(|e| match (e.optional, e.multiline) { (false, false) => b'.', (true, false) => b'?', (true, true) => b'*', (false, true) => b'+' }).collect();
+            let c = Case { ne: exps.len(), nl: lines.len(), q, m, nlflag };
+            writeln!(w, "{}", run_with(&exps, &lines, &c)).unwrap();
         }
         "one" => {
             // replay: ne nl quants matrix nlflag
